@@ -124,6 +124,11 @@ func isPrivate(x *ast.Field) bool {
 	} else {
 		s = fmt.Sprintf("%s", x.Names[0])
 	}
+	if len(x.Names) > 0 {
+		// Go's own rule: "_x", "émile" and other names that do not start with
+		// an upper case letter are unexported too
+		return !ast.IsExported(s)
+	}
 	return strings.Contains(letters, string(s[0]))
 }
 
@@ -158,6 +163,10 @@ func getFields(n map[string]ast.Node) (map[string]fields.Field, error) {
 						parent.Children = append(parent.Children, f)
 					}
 				}
+				// the field has been handled as a whole: the fields of an inline
+				// struct type or the parameters of a func type inside it are
+				// not fields of this struct
+				return false
 			}
 			return true
 		})
